@@ -1,0 +1,12 @@
+//go:build verif
+
+package netconf
+
+// VerifYield: see channel.VerifYield.
+var VerifYield func(label string) //nolint:gochecknoglobals
+
+func verifYield(label string) {
+	if f := VerifYield; f != nil {
+		f(label)
+	}
+}
